@@ -1,0 +1,9 @@
+//go:build verif
+
+package agwpe
+
+import "net"
+
+// VerifNewTNC exposes the unexported constructor so that the verification harness can run the TNC
+// client over an in-memory link with deterministic segmentation. Not part of the regular build.
+func VerifNewTNC(conn net.Conn) *TNC { return newTNC(conn) }
